@@ -333,6 +333,12 @@ impl<'a> World<'a> {
         Self::bump(run, &format!("op={kind}"));
         let all_before = self.sbx.snapshot();
         let before = ws_listing(&self.sbx.root);
+        // what happens AROUND the root while the operation runs (a temporary file next to the root that is gone again
+        // when the call returns is invisible to the comparison of the snapshots)
+        let mut watcher = Watcher::new(&self.sbx.outside_dirs());
+        if watcher.is_none() {
+            Self::bump(run, "no-inotify");
+        }
         match kind {
             "create" | "create_runner" => {
                 let raws: Vec<String> = op["raws"].as_array().map(|a| a.iter().map(|x| self.sbx.subst(x.as_str().unwrap_or(""))).collect()).unwrap_or_default();
@@ -629,6 +635,19 @@ impl<'a> World<'a> {
         }
         let all_after = self.sbx.snapshot();
         self.outside_check(run, kind, &all_before, &all_after);
+        if let Some(w) = watcher.as_mut() {
+            let evs = w.drain();
+            if !evs.is_empty() && diff(&all_before, &all_after).iter().all(|c| is_ws(&c.path)) {
+                let mut seen: Vec<String> = vec![];
+                for (what, p) in &evs {
+                    let e = format!("{what} {}", p.strip_prefix(&self.sbx.top).map(|x| x.to_string_lossy().to_string()).unwrap_or_else(|_| p.to_string_lossy().to_string()));
+                    if !seen.contains(&e) {
+                        seen.push(e);
+                    }
+                }
+                run.viol.push((format!("{kind}: outside the workspace root while the operation ran (gone again afterwards): {}", seen.join("; ")), "outside_touched_transiently".into()));
+            }
+        }
         if self.frozen {
             freeze_tree(&self.sbx.root);
         }
